@@ -23,7 +23,8 @@ Lib == [ R  |-> << <<"in">>, <<"out">> >>,
          P  |-> << <<"in">>, <<"panic">>, <<"out">> >>,
          WP |-> << <<"in">>, <<"write", 3, "full">>, <<"panic">> >>,
          PA |-> << <<"in">>, <<"panic", "abort-sentinel">> >>,       \* panic(http.ErrAbortHandler): a panic like any other for the router
-         EP |-> << <<"in">>, <<"err">>, <<"panic">> >>,               \* records an error, then panics
+         EP |-> << <<"in">>, <<"err">>, <<"panic">> >>,
+         SP |-> << <<"in">>, <<"status", 201>>, <<"panic">> >>,       \* chooses a status, then panics: the hook's answer is what counts               \* records an error, then panics
          PH |-> << <<"in">>, <<"catchnext">>, <<"out">> >>,
          NP |-> << <<"in">>, <<"next">>, <<"panic">>, <<"out">> >>,
          \* the router's built-in fallback handlers (not instrumented): 404, 405 and the automatic answer to OPTIONS
@@ -57,6 +58,7 @@ Next == CursorNext /\ UNCHANGED src
 HookScript(h) == CASE h = "none" -> None
                     [] h = "nothing" -> << <<"in">> >>
                     [] h = "status" -> << <<"in">>, <<"status", 500>> >>
+                    [] h = "ok200" -> << <<"in">>, <<"status", 200>>, <<"write", 2, "full">> >>     \* a fallback page with an explicit 200
                     [] h = "statusbody" -> << <<"in">>, <<"status", 503>>, <<"write", 4, "full">>, <<"out">> >>
 OnErr == << <<"in">>, <<"status", 500>>, <<"out">> >>
 LineFor(h) == LET d == IdealDispatch(chain, OnErr, HookScript(h)) IN
